@@ -39,13 +39,14 @@ fn op_strategy() -> impl Strategy<Value = Op> {
 fn spec_strategy() -> impl Strategy<Value = ObjectSpec> {
     (
         prop_oneof![Just((1usize, 1usize)), Just((1, 2)), Just((1, 5)), Just((2, 2)), Just((4, 3)), Just((8, 1)), Just((1, 16))],
-        1usize..=3,
+        prop_oneof![8 => 1usize..=3, 1 => 4usize..=24],
         any::<u64>(),
         any::<u64>(),
         any::<u64>(),
     )
         .prop_map(|((al, tu), z, rk, rr, seed)| {
-            let kmax = 40usize;
+            // many blocks only with few symbols each, so that a 420-step history can complete them
+            let kmax = if z > 3 { 4usize } else { 40usize };
             let kt = (z as u64 + rk % (kmax * z - z + 1) as u64) as usize;
             let t = al * tu;
             let r = if rr % 3 == 0 { t } else { 1 + ((rr >> 4) % t as u64) as usize };
@@ -238,6 +239,7 @@ fn check(c: &Case, st: &mut Stats) -> Result<(), String> {
     }
     st.evals(deliveries as u64);
     st.class_if(clones > 0, "history with clone");
+    st.class_if(z > 3, "more than 3 blocks");
     st.class_if(flushes > 0, "history with batch flush");
     st.class_if(interleaved, "interleaved blocks");
     st.class_if(dup_src_before, "duplicate source packet before completion");
@@ -317,7 +319,7 @@ fn signature(_: &Case, msg: &str) -> String {
 }
 
 pub fn run(ctx: &Ctx, rep: &mut Report) {
-    rep.rule = "stateful: generated object (Z <= 3 blocks, K <= 40 per block, several (Al,T,N)) with a packet pool (all source packets + K/2+6 repair packets per block with near/uniform/far ESIs) and a generated history of up to 420 operations: Deliver(any pool index: duplicates and re-delivery after completion occur), Flush (per-block batches through SourceBlockDecoder::decode(iter)), Clone (continue on the clone, keep the original running on the same suffix), Checkpoint. Invariants after every step: decode() == add_new_packet()+get_result(); clone == original and both give identical answers afterwards; once Some(x), always Some(x); at checkpoints and at the end the answer equals that of a fresh decoder fed the distinct packets in ascending (SBN, ESI) order one per call; batched per-block delivery == one-per-call delivery of the same set. Non-trivial = history with a duplicate source packet before completion, a delivery after completion and a block completed by the solver; distinct by (object, op sequence).".into();
+    rep.rule = "stateful: generated object (Z <= 3 blocks of K <= 40, or in one case of nine 4..24 blocks of K <= 4; several (Al,T,N)) with a packet pool (all source packets + K/2+6 repair packets per block with near/uniform/far ESIs) and a generated history of up to 420 operations: Deliver(any pool index: duplicates and re-delivery after completion occur), Flush (per-block batches through SourceBlockDecoder::decode(iter)), Clone (continue on the clone, keep the original running on the same suffix), Checkpoint. Invariants after every step: decode() == add_new_packet()+get_result(); clone == original and both give identical answers afterwards; once Some(x), always Some(x); at checkpoints and at the end the answer equals that of a fresh decoder fed the distinct packets in ascending (SBN, ESI) order one per call; batched per-block delivery == one-per-call delivery of the same set. Non-trivial = history with a duplicate source packet before completion, a delivery after completion and a block completed by the solver; distinct by (object, op sequence).".into();
     let n = ctx.tier.pick(80_000u64, 800_000);
     rep.absorb("history", run_sharded("C08", "history", ctx.seed, n, 32, strategy, check, to_json, signature));
 }
